@@ -367,7 +367,7 @@ func c18RandomCfg(rng *rand.Rand) c18Cfg {
 		} else {
 			l := c18PickAbs(rng, 10, 45)
 			hgh := c18PickAbs(rng, 40, 90)
-			if rng.Intn(6) == 0 {
+			if rng.Intn(4) == 0 {
 				hgh = l + 500*int64(rng.Intn(3)) // narrow band: little headroom on the targets
 				if !c18ExactAbs(hgh) {
 					hgh = l
@@ -665,59 +665,74 @@ func c18RandomSegment(h *c18Harness, rng *rand.Rand, rounds int) {
 	}
 }
 
-// enumerated pools: every 4-round sequence of the source node's level in {10, 50, 90} percent, for absolute 20/80 and
-// deviation 10.03 thresholds, with / without prod thresholds, anomaly none / 2  (2 x 2 x 2 x 81 segments)
+// enumerated pools (3 nodes of two capacities, absolute 20/80 and deviation 10.03 thresholds, anomaly none / 2):
+//
+//	family A  every 4-round sequence of the source node's usage level in {10, 50, 90} percent, with / without prod thresholds
+//	family B  node usage of the source held at 50 percent, every 4-round sequence of its PROD usage level
+//	          {0, 12, 30} percent against prod thresholds 10/15 (deviation 5.03)
+//
+// (2 x 2 x 2 x 81  +  2 x 2 x 81 segments)
 func c18Enumerated(h *c18Harness) {
 	levels := []int64{10, 50, 90}
-	for _, dev := range []bool{false, true} {
-		for _, prod := range []bool{false, true} {
-			for _, an := range []int{0, 2} {
-				cfg := c18Norm(c18Cfg{Dev: dev, Anomaly: an, Norm: 1})
-				if dev {
-					cfg.Low, cfg.High = map[string]int64{"cpu": 1003, "mem": 1003}, map[string]int64{"cpu": 1003, "mem": 1003}
-					if prod {
-						cfg.PLow, cfg.PHigh = map[string]int64{"cpu": 503}, map[string]int64{"cpu": 503}
-					}
-				} else {
-					cfg.Low, cfg.High = map[string]int64{"cpu": 2000, "mem": 2000}, map[string]int64{"cpu": 8000, "mem": 8000}
-					if prod {
-						cfg.PLow, cfg.PHigh = map[string]int64{"cpu": 1000}, map[string]int64{"cpu": 1500}
-					}
+	for _, fam := range []string{"A", "B"} {
+		for _, dev := range []bool{false, true} {
+			for _, prod := range []bool{false, true} {
+				if fam == "B" && !prod {
+					continue
 				}
-				for code := 0; code < 81; code++ {
-					w := &c18World{cfg: cfg, names: []string{"n1", "n2", "n3"},
-						caps:    map[string]map[string]int64{"n1": {"cpu": 1000, "mem": 1000}, "n2": {"cpu": 2000, "mem": 2000}, "n3": {"cpu": 1000, "mem": 1000}},
-						unsched: map[string]bool{}, sys: map[string]map[string]int64{}, pods: map[string]c18Pod{}}
-					h.startSegment(cfg, w.names)
-					c := code
-					for r := 0; r < 4; r++ {
-						lv := levels[c%3]
-						c /= 3
-						w.pods = map[string]c18Pod{
-							"p3": {Node: "n2", Use: map[string]int64{"cpu": 100, "mem": 100}, Prod: true, Pass: true, Metric: true, EOK: true},
-							"p4": {Node: "n3", Use: map[string]int64{"cpu": 100, "mem": 0}, Prod: false, Pass: true, Metric: true, EOK: true},
+				for _, an := range []int{0, 2} {
+					cfg := c18Norm(c18Cfg{Dev: dev, Anomaly: an, Norm: 1})
+					if dev {
+						cfg.Low, cfg.High = map[string]int64{"cpu": 1003, "mem": 1003}, map[string]int64{"cpu": 1003, "mem": 1003}
+						if prod {
+							cfg.PLow, cfg.PHigh = map[string]int64{"cpu": 503}, map[string]int64{"cpu": 503}
 						}
-						w.sys = map[string]map[string]int64{"n2": {"cpu": 100, "mem": 100}, "n3": {"cpu": 400, "mem": 300}}
-						if lv == 10 {
-							w.sys["n1"] = map[string]int64{"cpu": 100, "mem": 100}
-						} else {
-							w.pods["p1"] = c18Pod{Node: "n1", Use: map[string]int64{"cpu": 200, "mem": 100}, Prod: true, Pass: true, Metric: true, EOK: true}
-							w.pods["p2"] = c18Pod{Node: "n1", Use: map[string]int64{"cpu": 100, "mem": 300}, Prod: false, Pass: true, Metric: true, EOK: true}
-							w.sys["n1"] = map[string]int64{"cpu": lv*10 - 300, "mem": 0}
+					} else {
+						cfg.Low, cfg.High = map[string]int64{"cpu": 2000, "mem": 2000}, map[string]int64{"cpu": 8000, "mem": 8000}
+						if prod {
+							cfg.PLow, cfg.PHigh = map[string]int64{"cpu": 1000}, map[string]int64{"cpu": 1500}
 						}
-						fresh := map[string]bool{"n1": true, "n2": true, "n3": true}
-						for !w.devRobust(fresh) {
-							w.sys["n3"]["cpu"]++
-							w.sys["n3"]["mem"]++
+					}
+					for code := 0; code < 81; code++ {
+						w := &c18World{cfg: cfg, names: []string{"n1", "n2", "n3"},
+							caps:    map[string]map[string]int64{"n1": {"cpu": 1000, "mem": 1000}, "n2": {"cpu": 2000, "mem": 2000}, "n3": {"cpu": 1000, "mem": 1000}},
+							unsched: map[string]bool{}, sys: map[string]map[string]int64{}, pods: map[string]c18Pod{}}
+						h.startSegment(cfg, w.names)
+						c := code
+						for r := 0; r < 4; r++ {
+							lv := levels[c%3]
+							c /= 3
+							w.pods = map[string]c18Pod{
+								"p3": {Node: "n2", Use: map[string]int64{"cpu": 100, "mem": 100}, Prod: true, Pass: true, Metric: true, EOK: true},
+								"p4": {Node: "n3", Use: map[string]int64{"cpu": 100, "mem": 0}, Prod: false, Pass: true, Metric: true, EOK: true},
+							}
+							w.sys = map[string]map[string]int64{"n2": {"cpu": 100, "mem": 100}, "n3": {"cpu": 400, "mem": 300}}
+							switch {
+							case fam == "A" && lv == 10:
+								w.sys["n1"] = map[string]int64{"cpu": 100, "mem": 100}
+							case fam == "A":
+								w.pods["p1"] = c18Pod{Node: "n1", Use: map[string]int64{"cpu": 200, "mem": 100}, Prod: true, Pass: true, Metric: true, EOK: true}
+								w.pods["p2"] = c18Pod{Node: "n1", Use: map[string]int64{"cpu": 100, "mem": 300}, Prod: false, Pass: true, Metric: true, EOK: true}
+								w.sys["n1"] = map[string]int64{"cpu": lv*10 - 300, "mem": 0}
+							default: // family B: 10 -> no prod pod, 50 -> 120 prod (between), 90 -> 300 prod (above)
+								w.pods["p1"] = c18Pod{Node: "n1", Use: map[string]int64{"cpu": 180, "mem": 100}, Prod: lv == 90, Pass: true, Metric: true, EOK: true}
+								w.pods["p2"] = c18Pod{Node: "n1", Use: map[string]int64{"cpu": 120, "mem": 100}, Prod: lv >= 50, Pass: true, Metric: true, EOK: true}
+								w.sys["n1"] = map[string]int64{"cpu": 200, "mem": 200}
+							}
+							fresh := map[string]bool{"n1": true, "n2": true, "n3": true}
+							for !w.devRobust(fresh) {
+								w.sys["n3"]["cpu"]++
+								w.sys["n3"]["mem"]++
+							}
+							e := c18Ev{Op: "round", Cfg: &w.cfg, Nodes: map[string]c18Node{}, Pods: map[string]c18Pod{}}
+							for _, n := range w.names {
+								e.Nodes[n] = c18Node{Cap: c18Copy(w.caps[n]), Fresh: true, Sys: c18Copy(w.sys[n])}
+							}
+							for pn, p := range w.pods {
+								e.Pods[pn] = p
+							}
+							h.runRound(e)
 						}
-						e := c18Ev{Op: "round", Cfg: &w.cfg, Nodes: map[string]c18Node{}, Pods: map[string]c18Pod{}}
-						for _, n := range w.names {
-							e.Nodes[n] = c18Node{Cap: c18Copy(w.caps[n]), Fresh: true, Sys: c18Copy(w.sys[n])}
-						}
-						for pn, p := range w.pods {
-							e.Pods[pn] = p
-						}
-						h.runRound(e)
 					}
 				}
 			}
